@@ -471,6 +471,21 @@ func includesCost(e *Env, v ssa.Value, costTerm string, assumed map[*ssa.Phi]boo
 			}
 		}
 		return true
+	case *ssa.Call:
+		// an extracted cost computation: every return of the helper includes the cost
+		if sc := x.Call.StaticCallee(); sc != nil && len(sc.Blocks) > 0 && sc.Pkg != nil && strings.HasPrefix(sc.Pkg.Pkg.Path(), modPath) && e.depth < 4 && x.Call.Signature().Results().Len() == 1 {
+			sub := e.Sub(x, sc)
+			n := 0
+			for _, r := range returnsOf(sc) {
+				if !includesCost(sub, retval(r, 0), costTerm, map[*ssa.Phi]bool{}) {
+					return false
+				}
+				n++
+			}
+			if n > 0 {
+				return true
+			}
+		}
 	}
 	return e.Term(v) == costTerm
 }
